@@ -1657,7 +1657,7 @@ class NetSim(enginemod.Engine):
         return out
 
     def quick_runs(self, prop):
-        return 4800
+        return 8000
 
     def make_config(self, prop, tier, rng):
         return make_config(prop, tier, rng)
